@@ -156,6 +156,11 @@ pub fn call_stream_builtin(m: &mut Model, site: &ScopeRef, name: &str, mut args:
                 } else {
                     StreamV::Filter(Box::new(s.clone()), f.clone())
                 })),
+                // a sequence that is not a stream: HEAD refuses, `lazy_map(stream(seq), f)` is the
+                // obvious meaning
+                (V::List(_) | V::Vector(_) | V::Bytes(_) | V::Str(_) | V::Dict(_), V::Func(_)) => {
+                    crate::model::throw_unsupported("argument error: lazy hof")
+                }
                 _ => throw("argument error: lazy hof"),
             }
         }
@@ -175,6 +180,9 @@ pub fn call_stream_builtin(m: &mut Model, site: &ScopeRef, name: &str, mut args:
                         f = Some(g.clone());
                     }
                     V::Stream(s) => members.push(s.clone()),
+                    V::List(_) | V::Vector(_) | V::Bytes(_) | V::Str(_) | V::Dict(_) => {
+                        return crate::model::throw_unsupported("argument error: lazy_zip: not stream")
+                    }
                     _ => return throw("argument error: lazy_zip: not stream"),
                 }
             }
